@@ -262,7 +262,13 @@ pub fn step_raw(rv: &mut RawVector, model: &mut Bits, op: &RawOp, step: usize, s
                 if off / 64 != (off + w - 1) / 64 {
                     st.cross_word = true;
                 }
+            } else {
+                // a field of width 0 is empty: writing it changes nothing (the full state comparison follows), reading it gives 0
+                let off = frac(*f, model.len);
+                unsafe { rv.set_int(off, *v, 0) };
+                ensure_eq!(unsafe { rv.int(off, 0) }, 0, "RawVector.int", "int({}, 0)", off);
             }
+            ensure!(rv.is_mutable(), "RawVector.is_mutable", "a raw vector is mutable");
         }
         RawOp::Resize(f, b) => {
             let nl = len_of(*f);
